@@ -63,6 +63,13 @@ def run(ctx):
         if len(ctx.violations) < 3:
             ctx.violation("AttachmentsMap after %s: %s = %s, the specification says %s" % (mm["history"], mm["query"], mm["observed"], mm["expected"]),
                           {"kind": "attachments", "scenario": mm})
+    # two using packages in one run, the allowed one analysed before the one that is not (w imports u): what the index builder does
+    # for an allowed package must not reach the next one (the standalone driver shares the imported facts in memory)
+    import gen_xpkg
+    for k, al in enumerate(([["u"]], [["m/u"]], [["u"], ["x"]], [["w"]], [["m/w", "x"]])):
+        v = {"ctors": ["NewT"], "allow": al, "mut2": False, "shape": "diamond", "ptrmeth": bool(k % 2), "unsafe": False, "dign": None}
+        prog, exp = gen_xpkg.build(v, "C04_two_users_%d" % k)
+        real_items.append((prog, {e for e in exp if e[2].startswith("PKGO")}, {"al": "two using packages", "pkg": "u, w", "files": [["all reference kinds"]], "lines": al}))
     nreal = 0
     if not ctx.violations:
         nreal = progcheck.real_drivers(ctx, real_items, cats, rep)
